@@ -29,6 +29,14 @@ class DocActions(object):
 
     self._engine.add_records(table_id, row_ids, column_values)
 
+    # As for updates: an explicit value for a column with a trigger formula should stay, even if
+    # something within the same useraction (e.g. one of its recalcDeps, set in the same new
+    # record) would otherwise trigger recalculation. It is also important for undos.
+    for col_id in column_values:
+      col = table.get_column(col_id)
+      if not col.is_formula() and col.has_formula():
+        self._engine.prevent_recalc(col.node, row_ids, should_prevent=True)
+
   def RemoveRecord(self, table_id, row_id):
     return self.BulkRemoveRecord(table_id, [row_id])
 
